@@ -461,6 +461,14 @@ def bounded_writers(ctx, b):
         spans = [(pts[2 * j], pts[2 * j + 1]) for j in range(k)]
         spans[rng.randrange(2, k)] = spans[0]
         cs = CaptionSet({"en-US": CaptionList([Caption(s, e, [T(f"cue {j}")]) for j, (s, e) in enumerate(spans)])})
+        # a caption whose text is a no-break space (what WebVTT's &nbsp; cue reads as) keeps its own timed cue in the DFXP family
+        blank = CaptionSet({"en-US": CaptionList([Caption(s, e, [T("\xa0" if j == 1 else f"cue {j}")]) for j, (s, e) in enumerate(spans)])})
+        for name in ("dfxp", "legacy", "single"):
+            def blank_kept(name=name, spans=spans, blank=blank):
+                got = [(cu["start"], cu["end"]) for cu in parsers.parse_dfxp(writers[name].write(blank))["cues"].get("en-US", [])]
+                want = list(spans) if name == "dfxp" else merge_identical(spans)
+                return got == want, {"writer": name, "spans": spans, "parsed": got, "expected": want}
+            b.guard(("blank", i, name), blank_kept, sample={"writer": name, "spans": spans, "blank_text_caption": 1})
         for name in ("srt", "webvtt", "dfxp", "legacy", "single", "microdvd"):
             def apart(name=name, spans=spans, cs=cs):
                 out = writers[name].write(cs)
